@@ -178,6 +178,34 @@ func startsGoroutines(rel string, fd *ast.FuncDecl) []string {
 	return []string{fmt.Sprintf("%s:%s: %d", rel, name, n)}
 }
 
+// panicSites: every function that calls panic(…) itself, with the number of such calls: the Must… constructors (by
+// contract), the two "cannot (un)marshal a field of this type" branches of the codec (unreachable for the supported
+// kinds) and the HHmm comparison with something that is neither a time nor an HH:mm
+var panicSites = []string{}
+
+func callsPanic(rel string, fd *ast.FuncDecl) []string {
+	if fd.Body == nil {
+		return nil
+	}
+	name := fd.Name.Name
+	if fd.Recv != nil && len(fd.Recv.List) == 1 {
+		name = strings.TrimPrefix(src(fd.Recv.List[0].Type), "*") + "." + name
+	}
+	n := 0
+	ast.Inspect(fd.Body, func(x ast.Node) bool {
+		if c, ok := x.(*ast.CallExpr); ok {
+			if id, ok := c.Fun.(*ast.Ident); ok && id.Name == "panic" {
+				n++
+			}
+		}
+		return true
+	})
+	if n == 0 {
+		return nil
+	}
+	return []string{fmt.Sprintf("%s:%s: %d", rel, name, n)}
+}
+
 var ambientNames = map[string]bool{
 	"time.Now": true, "time.Since": true, "time.Until": true, "time.Local": true,
 	"os.Getenv": true, "os.LookupEnv": true, "os.Environ": true, "os.Hostname": true, "os.Getwd": true, "os.Getpid": true, "os.Args": true,
@@ -252,6 +280,7 @@ func genSource(repo, out string) {
 				if fd, ok := d.(*ast.FuncDecl); ok {
 					ambientReads = append(ambientReads, readsAmbient(rel, fd)...)
 					goStatements = append(goStatements, startsGoroutines(rel, fd)...)
+					panicSites = append(panicSites, callsPanic(rel, fd)...)
 				}
 				// an operation of the regular shape  guards* ; request := messages.X{…} ; … sendto[T](…) …  is also
 				// entered in four parts, so that a property depends only on the part its model transcribes
@@ -343,6 +372,13 @@ func genSource(repo, out string) {
 	}
 	b.WriteString("]\n\n/-- every function that starts goroutines, with the number of its `go` statements -/\ndef goStatements : List String := [")
 	for i, w := range goStatements {
+		if i > 0 {
+			b.WriteString(", ")
+		}
+		b.WriteString(leanStr(w))
+	}
+	b.WriteString("]\n\n/-- every function that calls panic itself, with the number of such calls -/\ndef panicSites : List String := [")
+	for i, w := range panicSites {
 		if i > 0 {
 			b.WriteString(", ")
 		}
